@@ -3,6 +3,7 @@ mod fd;
 mod fmt;
 mod gen;
 mod hufcodec;
+mod hufx;
 mod frames;
 mod fsecodec;
 mod fsex;
@@ -99,6 +100,8 @@ fn main() {
         "c14rows" => fmt::c14rows(rest),
         "c12dec" => fsex::c12dec(rest),
         "c12enc" => fsex::c12enc(rest),
+        "c13dec" => hufx::c13dec(rest),
+        "c13enc" => hufx::c13enc(rest),
         "mkcorpus" => gen::mkcorpus(rest),
         "encexec" => enc::encexec(rest),
         "encgraph" => enc::encgraph(rest),
